@@ -9,7 +9,7 @@
                   (Model/Bounds.v, the functions the theorems of Props/C01.v are about) from the crate's own estimate and
                   demands bit-for-bit equality, and equality of the estimate itself wherever the model has it. *)
 From DS Require Import Base.Prelude Base.FloatBits Model.Bounds.
-From DS Require Model.HllEst.
+From DS Require Model.HllEst Model.Composite.
 From Coq Require Import Floats.
 Open Scope Z_scope.
 
@@ -45,6 +45,7 @@ Definition prop_op (op : zop) (o : list Z) : bool :=
           (if nds =? 0 then chain [l3; l2; l1; e; u1; u2; u3] else chain [l3; l2; l1; e] && chain [u1; u2; u3])
       | _, _ => false
       end
+  | 7 => forallb not_nan o && PrimFloat.leb 0 (F (nth 2 o 0))
   | 4 | 5 =>
       seven_ok (firstn 7 o) &&
       (* an empty sketch estimates 0 with both bounds 0 *)
@@ -54,8 +55,9 @@ Definition prop_op (op : zop) (o : list Z) : bool :=
       | [lgk; n; seed; p; mode] =>
           seven_ok (firstn 7 o) &&
           let nret := nth 7 o 0 in let th := nth 8 o 0 in
-          (* exact mode: estimate and every bound are exactly the number of distinct items offered *)
-          (if (th =? Nz MAX_THETA) && (p =? 1065353216) then all_eq (bz (u2f (zN n))) (firstn 7 o) && (nret =? n) else true) &&
+          (* exact mode (the sketch reports theta = MAX_THETA, whatever its sampling probability): estimate and every bound
+             are exactly the number of distinct items offered *)
+          (if (th =? Nz MAX_THETA) then all_eq (bz (u2f (zN n))) (firstn 7 o) && (nret =? n) else true) &&
           (* items were offered to a sampling sketch: the upper bound must not claim "certainly nothing" *)
           (if (0 <? n) && (th <? Nz MAX_THETA) then PrimFloat.ltb 0 (F (nth 4 o 0)) else true)
       | _ => false
@@ -152,6 +154,15 @@ Definition tie_op (op : zop) (o : list Z) : bool :=
           let nret := zN (nth 6 rest 0) in let th := zN (nth 7 rest 0) in let empty := negb (nth 8 rest 0 =? 0) in
           (bz (theta_estimate empty nret th) =? e) && theta_bounds_match empty nret th (firstn 6 rest)
       | _ => false
+      end
+  | 7 =>
+      (* raw HLL estimate recomputed from kxq0 + kxq1; composite estimate recomputed from the raw estimate and the crate's
+         bitmap estimate (which needs ln and is not modelled) *)
+      match a, o with
+      | [lgk; q0; q1; _; _], [raw; lin; comp] =>
+          (bz (Composite.raw_estimate (zN lgk) (F q0) (F q1)) =? raw) &&
+          (bz (Composite.composite_of (zN lgk) (F raw) (F lin)) =? comp)
+      | _, _ => false
       end
   | _ => true
   end.
